@@ -15,6 +15,7 @@ EXPLANATION = (
     "ones are live; all five registries must be read, keyed windows by membership of the candidate, the hold-back queue by "
     "its requests' identifiers, and (ID-SCAN) every non-returning iteration of those loops performs the test or runs the "
     "nested loop that does - no entry is skipped under another condition, no early break before the candidate was found. "
+    "ID-SCAN also: in the factory module no one-shot iterator (generator call, generator expression, iter/map/filter/zip/reversed/enumerate) is bound once and consumed on every turn of a loop or twice - the later consumption sees the unread tail only. "
     "Absence of collisions over concrete histories is not decided.")
 ASSUMPTIONS = []
 
@@ -70,6 +71,19 @@ def interval(t):
 
 def check(ctx):
     a = ctx.a
+    # the in-use scan has to look at every registry for every candidate: a scan that is a one-shot iterator (a generator, map(), iter())
+    # bound once and asked again for each candidate answers the later candidates from the tail the earlier ones left over
+    from .common import oneshot_misuses
+    fmod = a.prog.modules.get("mqtt.client.factory")
+    if fmod is None:
+        raise AnalysisError("anchor vanished: mqtt.client.factory")
+    shots = list(oneshot_misuses(a.prog, fmod))
+    for fn, name, bnode, node, why in shots:
+        ctx.ob("ID-SCAN", "%s consumes no one-shot iterator twice" % fn.qual, False, where="%s:%d" % (fn.file, node.lineno), function=fn.qual,
+               construct="%s/one-shot/%s" % (fn.qual, name), msg=why)
+    if shots:
+        return      # what the allocator computes from a half-read scan is not what the rules below reason about
+    ctx.ob("ID-SCAN", "the factory consumes no one-shot iterator twice", True, where=fmod.path, construct="factory/one-shot", nontrivial=False)
     ty = types(a)
     caps, pm, _ = capabilities(a)
     n_alloc = n_enc = 0
